@@ -351,6 +351,247 @@ def window_init(prog, res, f, rule="R-WINDOW"):
                      "acquisition is continued with the first frames of the next one, so windows are shifted and a committed frame is summed into" % (obj, pname))
 
 
+ELEMENT_TYPE = {  # sample type -> (bytes, signed) of the element the kernel must read
+    "SampleType_u8": (1, False), "SampleType_u10": (2, False), "SampleType_u12": (2, False),
+    "SampleType_u14": (2, False), "SampleType_u16": (2, False), "SampleType_i8": (1, True), "SampleType_i16": (2, True)}
+CTYPE = {"uint8_t": (1, False), "unsigned char": (1, False), "uint16_t": (2, False), "unsigned short": (2, False),
+         "int8_t": (1, True), "signed char": (1, True), "char": (1, True), "int16_t": (2, True), "short": (2, True)}
+
+
+def kernels(prog, res, rule="R-KERNEL"):
+    """The per-pixel loops of accumulate / normalize visit exactly the pixels
+    0 .. npx-1 (npx = shape.strides.planes of the accumulator) and apply
+    x[i] += y[i]  /  x[i] *= factor  to each, with x the float payload of the
+    accumulator and y the input payload read with the element type of the
+    sample type that selected the loop.  Loop bounds by the linear domain
+    (initial index 0, step 1, body only below npx, exit only at >= npx)."""
+    from .. import linear as L
+    for fname, op_want in (("accumulate", "+="), ("normalize", "*=")):
+        f = prog.func(fname)
+        res.touched(f)
+        loops = paths.natural_loops(f)
+        if not loops:
+            raise AnalysisBroken("%s has no per-pixel loop" % fname)
+        rec = {"pre": [], "back": []}
+        an = L.Analysis(prog, on_loop_pre=lambda f_, h, s_: rec["pre"].append((h, s_.copy())) if f_ is f else None,
+                        on_backedge=lambda f_, h, s_: rec["back"].append((h, s_.copy())) if f_ is f else None)
+        rets = an.run(f, L.State())
+        for head, body in loops:
+            line = f.blocks[head].tline or f.line
+            inst = "%s: loop at line %s visits pixels 0 .. npx-1" % (fname, line)
+            ivs = {an.cellkey(f, lv, L.State()) for b in body for s_ in f.blocks[b].stmts
+                   for lv, op, rhs, w in ir.writes_of(s_) if ir.strip(lv).get("k") == "var"}
+            problems = []
+            if len(ivs) != 1:
+                problems.append("no single index variable")
+                iv = None
+            else:
+                iv = ivs.pop()
+            pre = [s_ for h, s_ in rec["pre"] if h == head]
+            back = [s_ for h, s_ in rec["back"] if h == head]
+            if iv and (not pre or not back):
+                problems.append("the loop body is never executed by the analysis")
+            for s_ in pre if iv else []:
+                if iv not in s_.cells or not s_.entails_eq(s_.cells[iv]):
+                    problems.append("the index does not start at 0")
+            for s_ in back if iv else []:
+                i0 = L.lvar("%s#%d" % (iv, s_.ver.get(iv, 1) - 1))
+                npx = an.read(s_, "acc->shape.strides.planes")
+                if not s_.entails_eq(L.lsub(s_.cells.get(iv, {}), L.ladd(i0, L.lconst(1)))):
+                    problems.append("the index does not advance by one")
+                if not s_.entails_le(L.ladd(L.lsub(i0, npx), L.lconst(1))):
+                    problems.append("the body runs for an index that is not below acc->shape.strides.planes (out of bounds)")
+            # body: a single compound store x[i] op= ...
+            stores = [(lv, op, rhs) for b in body for s_ in f.blocks[b].stmts for lv, op, rhs, w in ir.writes_of(s_)
+                      if ir.strip(lv).get("k") == "idx"]
+            if len(stores) != 1 or stores[0][1] != op_want:
+                problems.append("the body is not a single  x[i] %s ...  update" % op_want)
+            else:
+                lv, op, rhs = stores[0]
+                xi = ir.strip(lv)
+                xv = ir.strip(xi["b"])
+                xt = xv.get("t", "") if isinstance(xv, dict) else ""
+                if "float" not in xt:
+                    problems.append("the target is not the float payload")
+                if iv and an.cellkey(f, xi["i"], L.State()) != iv:
+                    problems.append("the target is not indexed by the loop index")
+                if fname == "accumulate":
+                    r0 = ir.strip(rhs)
+                    if not (isinstance(r0, dict) and r0.get("k") == "idx" and an.cellkey(f, r0["i"], L.State()) == iv):
+                        problems.append("the addend is not y[i]")
+            if problems:
+                res.fail(rule, inst, "%s|%s|loop" % (rule, fname), "%s:%s" % (f.file, line),
+                         "%s: %s: pixels are skipped, summed twice or accessed out of bounds, so the emitted frame is not the mean" % (fname, "; ".join(sorted(set(problems)))))
+            else:
+                res.oblige(rule, inst, True, "i = 0; i < npx; ++i; x[i] %s .." % op_want, "%s:%s" % (f.file, line))
+        # exit only at i >= npx (successful returns)
+        bad_exit = False
+        for rv, s_ in rets:
+            if fname == "accumulate" and (rv is None or not L.is_const(rv) or rv.get(L.ONE, 0) == 0):
+                continue
+            ivk = [k for k in s_.cells if k.startswith(fname + ":") and k.split(":")[1] in
+                   {ir.strip(lv).get("n") for h, body in loops for b in body for st_ in f.blocks[b].stmts
+                    for lv, op, rhs, w in ir.writes_of(st_) if ir.strip(lv).get("k") == "var"}]
+            npx = an.read(s_, "acc->shape.strides.planes")
+            if not ivk or not all(s_.entails_le(L.lsub(npx, s_.cells[k])) for k in ivk):
+                bad_exit = True
+        inst = "%s: returns success only after the last pixel" % fname
+        if bad_exit:
+            res.fail(rule, inst, "%s|%s|exit" % (rule, fname), f.loc(),
+                     "%s can finish before index npx was reached: trailing pixels are not processed" % fname)
+        else:
+            res.oblige(rule, inst, True, "", f.loc())
+    # element type per sample type
+    f = prog.func("accumulate")
+    sws = [s_ for s_ in tables.switches(f) if s_["enum"] == "SampleType"]
+    if not sws:
+        raise AnalysisBroken("accumulate no longer switches over SampleType")
+    sw = sws[0]
+    for val, name in sorted(sw["cases"].items()):
+        want = ELEMENT_TYPE.get(name)
+        if want is None:
+            continue
+        # follow fall-through blocks to the declaration of the input pointer
+        b = sw["targets"].get(val)
+        seen = set()
+        got = None
+        while b is not None and b not in seen and got is None:
+            seen.add(b)
+            for st_ in f.blocks[b].stmts:
+                for lv, op, rhs, w in ir.writes_of(st_):
+                    if lv.get("k") == "var" and lv.get("pd") and isinstance(rhs, dict) and \
+                            any(y.get("k") == "mem" and y.get("f") == "data" for y in ir.walk(rhs)):
+                        t = lv.get("t", "").replace("const", "").replace("*", "").strip()
+                        got = CTYPE.get(t, t)
+            nxt = f.blocks[b].succ_ids()
+            b = nxt[0] if len(nxt) == 1 else None
+        inst = "accumulate: %s pixels are read with a %d-byte %s element" % (name, want[0], "signed" if want[1] else "unsigned")
+        if got == want:
+            res.oblige(rule, inst, True, "", f.loc())
+        else:
+            res.fail(rule, inst, "%s|accumulate|%s" % (rule, name), f.loc(),
+                     "accumulate reads %s pixels as %s: every value of the mean is wrong" % (name, got))
+
+
+def window_details(prog, res, f, rule="R-WINDOW"):
+    """More of the window bookkeeping: the emission test is exactly
+    'count has reached the window size'; a frame is counted only after it was
+    accumulated; the accumulator frame is float, sized and zeroed over its whole
+    payload; assert_consistent_shape demands dims and strides both equal."""
+    from .. import linear as L
+    from .. import congr
+    # exact window test
+    for b in f.blocks.values():
+        c = b.cond_node()
+        if c is None or not any(y.get("k") == "mem" and y.get("f") == "filter_window_frames" for y in ir.walk(c)):
+            continue
+        an = L.Analysis(prog)
+        T, F = an.branch(f, c, L.State())
+        ok = bool(T) and bool(F)
+        for s_ in T + F:
+            k = an.read(s_, "self->filter_window_frames")
+            cnts = [v for kk, v in s_.cells.items() if kk != "self->filter_window_frames"]
+            if len(cnts) != 1:
+                ok = False
+                continue
+            cnt = cnts[0]
+            if s_ in T and not s_.entails_le(L.lsub(k, cnt)):
+                ok = False
+            if s_ in F and not s_.entails_le(L.ladd(L.lsub(cnt, k), L.lconst(1))):
+                ok = False
+        inst = "%s: the window is complete exactly when the count reaches filter_window_frames" % f.name
+        if ok:
+            res.oblige(rule, inst, True, ir.render(c), "%s:%s" % (f.file, b.tline))
+        else:
+            res.fail(rule, inst, "R-WINDOW|%s|exact" % f.name, "%s:%s" % (f.file, b.tline),
+                     "the window test %s does not fire exactly when the number of accumulated frames reaches the window size: windows of k+1 (or k-1) frames are averaged" % ir.render(c))
+    # counted only after accumulated
+    loops = paths.natural_loops(f)
+    for b_, i_, s_ in f.all_stmts():
+        for lv, op, rhs, w in ir.writes_of(s_):
+            p_ = ir.ap(lv) or ""
+            if ("frame_count" in p_ or p_.lstrip("*").startswith("frame_count")) and (op in ("++", "+=") or ir.is_const(rhs, 1)):
+                loop = paths.innermost_loop(f, b_.id)
+                heads = [h for h, body in loops if loop and body == loop]
+                src = (heads[0], -1) if heads else "entry"
+                ok, wit = paths.all_paths_pass(f, src, {(b_.id, i_)}, lambda q: any(c.get("fn") == "accumulate" for c in ir.calls_in(q)))
+                inst = "%s: a frame is counted (line %s) only after it was accumulated" % (f.name, s_.get("line"))
+                if ok:
+                    res.oblige(rule, inst, True, "", f.loc(s_))
+                else:
+                    res.fail(rule, inst, "R-WINDOW|%s|count-without-sum" % f.name, f.loc(s_),
+                             "the frame counter can advance for a frame that was not added to the accumulator: the mean divides by too many frames")
+    # accumulator frame is float, zeroed over its payload
+    for b_, i_, s_ in f.all_stmts():
+        for c in ir.calls_in(s_):
+            if c.get("fn") == "bytes_of_image":
+                a0 = ir.strip(c["args"][0])
+                if isinstance(a0, dict) and a0.get("k") == "addr" and ir.strip(a0["e"]).get("k") == "var" and "p" not in ir.strip(a0["e"]):
+                    shp = ir.strip(a0["e"])["n"]
+
+                    def sets_float(q, shp=shp):
+                        return any(ir.ap(lv) == shp + ".type" and isinstance(ir.strip(rhs), dict) and str(ir.strip(rhs).get("e", "")).endswith("f32")
+                                   for lv, op, rhs, w in ir.writes_of(q))
+                    ok, wit = paths.all_paths_pass(f, "entry", {(b_.id, i_)}, sets_float)
+                    inst = "%s: the accumulator frame is sized as a float image" % f.name
+                    if ok:
+                        res.oblige(rule, inst, True, "%s.type = SampleType_f32 before bytes_of_image(&%s)" % (shp, shp), f.loc(s_))
+                    else:
+                        res.fail(rule, inst, "R-WINDOW|%s|float" % f.name, f.loc(s_),
+                                 "the accumulator frame is sized with the input's sample type instead of 32-bit float: the float sums overrun the mapped region")
+    sizes = [ir.strip(c["args"][1]) for b_, i_, s_ in f.all_stmts() for c in ir.calls_in(s_) if c.get("fn") == "channel_write_map"]
+    for b_, i_, s_ in f.all_stmts():
+        for c in ir.calls_in(s_):
+            if c.get("fn") == "memset" and any(y.get("k") == "mem" and y.get("f") == "data" for y in ir.walk(c["args"][0])):
+                Lx = congr.inline_expr(prog, f, c["args"][2])
+                ok = False
+                L0 = ir.strip(Lx)
+                for sz in sizes:
+                    full = congr.inline_expr(prog, f, sz)
+                    if isinstance(L0, dict) and L0.get("k") == "bin" and L0.get("op") == "-" and ir.render(L0["l"]) == ir.render(full) and \
+                            ir.strip(L0["r"]).get("sizeof_r") == "VideoFrame":
+                        ok = True
+                if isinstance(L0, dict) and L0.get("k") == "call" and L0.get("fn") == "bytes_of_image":
+                    ok = True
+                inst = "%s: the accumulator's payload is zeroed over exactly the mapped size minus the header" % f.name
+                if ok:
+                    res.oblige(rule, inst, True, ir.render(c["args"][2]), f.loc(s_))
+                else:
+                    res.fail(rule, inst, "R-WINDOW|%s|zero-extent" % f.name, f.loc(s_),
+                             "the accumulator is zeroed over %s bytes, which is not the mapped size minus sizeof(struct VideoFrame): part of the sum starts from stale bytes, or the memset runs past the mapped region" % ir.render(c["args"][2]))
+    # assert_consistent_shape
+    g = prog.func("assert_consistent_shape")
+    res.touched(g)
+    an = L.Analysis(prog)
+    bad = None
+    cmp_args = []
+    for b_, i_, s_ in g.all_stmts():
+        for c in ir.calls_in(s_):
+            if c.get("fn") == "memcmp":
+                cmp_args.append(" ".join(ir.render(a) for a in c["args"][:2]))
+    for rv, s_ in an.run(g, L.State()):
+        syms = [L.lvar(k + "#0") for k in ("call:memcmp",)] + [L.lvar("call:memcmp#1")]
+        both = [("eq", syms[0]), ("eq", syms[1])]
+        if rv is None or not L.is_const(rv):
+            bad = "result not decided by the two comparisons"
+        elif rv.get(L.ONE, 0) != 0:
+            if not all(s_.entails_eq(x) for x in syms):
+                bad = "answers 'consistent' although dims or strides differ"
+        else:
+            s2 = s_.copy()
+            s2.cons += both
+            if s2.feasible():
+                bad = "answers 'inconsistent' for identical shapes"
+    if not (any("dims" in a for a in cmp_args) and any("strides" in a for a in cmp_args)):
+        bad = bad or "no longer compares both dims and strides"
+    inst = "assert_consistent_shape: true exactly when dims and strides both agree"
+    if bad:
+        res.fail(rule, inst, "R-WINDOW|assert_consistent_shape", g.loc(),
+                 "assert_consistent_shape %s: frames of another geometry are summed into the window (out of bounds), or every window is cut short" % bad)
+    else:
+        res.oblige(rule, inst, True, "", g.loc())
+
+
 def pair_reader(prog, res, f, rule="PAIR"):
     opens = [(b.id, i, s) for b, i, s in f.all_stmts() if any(c.get("fn") == "channel_read_map" for c in ir.calls_in(s))]
     n = 0
@@ -390,6 +631,8 @@ def run(ctx, res):
     accumulate_exhaustive(prog, res)
     window_rules(prog, res, f)
     window_init(prog, res, f)
+    res.guard(window_details, prog, res, f)
+    res.guard(kernels, prog, res)
     n = pair_reader(prog, res, f)
     from .. import runtimerules as RR
     res.guard(RR.rule_consume, prog, res, "process_data", "iterate")
@@ -397,6 +640,7 @@ def run(ctx, res):
         raise AnalysisBroken("process_data no longer maps its reader")
     res.require_min("O-INIT-RMW", 1)
     res.require_min("T-EXH", 5)
-    res.require_min("R-WINDOW", 10)
+    res.require_min("R-WINDOW", 16)
+    res.require_min("R-KERNEL", 14)
     res.require_min("PAIR", 1)
     res.require_min("R-CONSUME", 1)
